@@ -904,6 +904,50 @@ def check_caller_buffers(run, vol, ratios, energy):
             return
 
 
+def check_results_owned(run, vol, seeds):
+    """arrays returned by a generator belong to the caller: vertices, directions and exit points kept alive are not
+    rewritten by later calls, and writing into them changes neither later answers nor the particle they came from"""
+    gen = make_gen(vol)
+    inp = {"volume": list(vol), "uniforms": [list(map(float, u)) for u in seeds]}
+    bad = None
+    kept = []
+    for us in seeds:
+        with Tape(run.rng, inject=list(us)):
+            v = gen.get_vertex()
+            d = gen.get_direction()
+        kept.append((v, np.array(v, copy=True), d, np.array(d, copy=True), list(us)))
+    for v, vc, d, dc, us in kept:
+        if not (np.array_equal(v, vc) and np.array_equal(d, dc)):
+            bad = "a vertex / direction kept by the caller was rewritten by a later get_vertex / get_direction"
+    if not bad:
+        v, vc, d, dc, us = kept[0]
+        p = base_particle(vc, dc)
+        pv, pd = np.array(p.vertex, copy=True), np.array(p.direction, copy=True)
+        r1 = gen.get_exit_points(p)
+        c1 = [np.array(x, copy=True) for x in r1]
+        p2 = base_particle(kept[-1][1], kept[-1][3])
+        r2 = gen.get_exit_points(p2)
+        if not all(np.array_equal(a, b) for a, b in zip(r1, c1)):
+            bad = "exit points kept by the caller were rewritten by a later get_exit_points"
+        else:
+            for arr in list(r1) + [v, d]:
+                try:
+                    np.asarray(arr)[...] = 12345.0          # the caller scribbles on everything it was given
+                except (ValueError, TypeError):
+                    pass
+            if not (np.array_equal(p.vertex, pv) and np.array_equal(p.direction, pd)):
+                bad = "writing into returned exit points changed the particle's vertex / direction"
+            else:
+                r3 = gen.get_exit_points(p)
+                with Tape(run.rng, inject=list(us)):
+                    v3 = gen.get_vertex()
+                    d3 = gen.get_direction()
+                if not (all(np.array_equal(a, b) for a, b in zip(r3, c1)) and np.array_equal(v3, vc) and np.array_equal(d3, dc)):
+                    bad = "after the caller wrote into returned arrays, later vertices / directions / exit points changed"
+    if bad:
+        run.fail_input("results-owned", inp, observed=bad, what=bad)
+
+
 def ks_stat(xs):
     xs = np.sort(np.asarray(xs))
     n = len(xs)
@@ -954,6 +998,12 @@ def search(run, deep):
         cfg = draw_event_cfg(run)
         run.case(("oracle-tape-disjoint", str(cfg)))
         check_tape_disjoint(run, cfg)
+    # arrays handed out by the generator belong to the caller
+    for i in range(6 * mult):
+        vol = draw_volume(rng)
+        seeds = [[rng.random() for _ in range(5)] for _ in range(3)]
+        run.case(("oracle-results-owned", vol))
+        check_results_owned(run, vol, seeds)
     # caller-owned, already normalised ratio / energy buffers mutated after construction
     for i in range(6 * mult):
         vol = draw_volume(rng)
@@ -1072,6 +1122,8 @@ def replay(run, data):
         check_exit_inputs(run, tuple(i["volume"]), i["vertex"], i["direction"])
     elif k == "list":
         check_list(run, i["n"], i["loop"], i["calls"])
+    elif k == "results-owned":
+        check_results_owned(run, tuple(i["volume"]), i["uniforms"])
     elif k == "caller-buffers":
         check_caller_buffers(run, tuple(i["volume"]), [tuple(x) for x in i["ratios"]], i["energy"])
     elif k == "tape-disjoint":
